@@ -9,8 +9,19 @@ source (T).  Tie, checked on every run:
     termios.tcgetattr(slave) is compared before/after, and the observed sequence of
     tracked calls is judged INSIDE Coq (model/C13Tie.v, model/SkelTie.v) to be a run of the
     translated skeleton (validates the call table and "untracked calls have no tracked
-    effect"); the same judgement classifies a fault as inside the function's own
-    clean-up (outside the property) or not.
+    effect").
+Round 4 -- faults ANYWHERE, the operation's own clean-up included ("interrupted by a signal at any
+point"; theorems C13_*_anywhere over model/C13Any.v):
+  * the k-th tracked call raising is IN SCOPE wherever it stands -- the final writes / flush of
+    draw()'s finally, the render-data finalizer (the renderable's `_finalize_render_data_` hook) --
+    and judged against `anyfault sk`; only the restoring tcsetattr of a clean-up block itself
+    failing is outside the property;
+  * ASYNCHRONOUS faults: KeyboardInterrupt (or an Exception) raised at the k-th signal point of the
+    package code (every position at which CPython would run a raising signal handler: after a call
+    returns, at function entry, on a backward jump), for ALL k in a few scenarios and a spread
+    elsewhere; oracle = the property on the raw attribute vectors, evaluated in Coq (C13Tie.acheck);
+  * attributes are compared at TWO times: when the call exits (exception still referenced) and
+    after the exception is released + gc.collect().
 A run whose fault is in scope and whose final attributes differ is the replay."""
 from __future__ import annotations
 
@@ -22,7 +33,7 @@ from pathlib import Path
 import core
 
 LEVEL = "proof"
-EXTRA_TARGETS = ["model/C13Tie.vo"]
+EXTRA_TARGETS = ["model/C13Tie.vo", "model/C13AsyncTie.vo"]
 
 FN_IDX = {"read_tty": 0, "query_terminal": 1, "draw": 2}
 NVARS = {"read_tty": 1, "query_terminal": 1, "draw": 6}
@@ -99,36 +110,63 @@ def run_key(case, res):
 
 def describe(case, res=None):
     f = case.get("fault")
+    a = case.get("async")
     s = f"{case['fn']}[{case['mode_name']}] attrs={case['attrs_name']} "
-    s += "no fault" if not f else f"call #{f['k']} raises {f['kind']} {'after' if f['after'] else 'before'} taking effect"
+    if a:
+        s += f"asynchronous {'KeyboardInterrupt' if a.get('kind', 'KI') == 'KI' else 'Exception'} at signal point #{a['k']}"
+        if res is not None and res.get("where"):
+            w = res["where"]
+            s += f" ({w[0]}:{w[1]} in {w[2]}, {w[3]})"
+    else:
+        s += "no fault" if not f else f"call #{f['k']} raises {f['kind']} {'after' if f['after'] else 'before'} taking effect"
     if res is not None:
         names = ["tcgetattr", "tcsetattr", "os.read", "os.write", "select", "tcdrain", "monotonic", "more", "write", "flush",
                  "render", "sleep", "handle_interrupt", "finalize"]
         s += " | calls: " + " ".join(names[e[0]] + ("!" if e[2] else "") for e in res["events"])
         s += f" | ended: {['returned', 'KeyboardInterrupt', 'Exception'][res['out']]}"
         if not res["restored"]:
-            diff = [i for i, (x, y) in enumerate(zip(res["before"], res["after"])) if x != y]
-            s += f" | ATTRIBUTES DIFFER in fields {diff} (iflag,oflag,cflag,lflag,ispeed,ospeed,cc)"
+            for key, when in (("held", "WHEN THE CALL EXITS (exception still referenced)"),
+                              ("after", "AFTER the exception was released and gc.collect()")):
+                diff = [i for i, (x, y) in enumerate(zip(res["before"], res.get(key) or res["before"])) if x != y]
+                if diff:
+                    s += f" | ATTRIBUTES DIFFER {when} in fields {diff} (iflag,oflag,cflag,lflag,ispeed,ospeed,cc)"
     return s
 
 
-def heuristic_in_scope(res):
-    """Only used when the Coq judgement is unavailable (translator refused the source):
-    the fault is in scope unless it hit the restoring tcsetattr itself or a call after it."""
+def heuristic_in_scope(case, res):
+    """Only used when the Coq judgement is unavailable (translator refused the source): the fault is
+    in scope unless the call it was injected into is a tcsetattr that was writing the attributes found
+    at entry (a restoring call) failing before it took effect."""
     ev = res["events"]
-    hit = [i for i, e in enumerate(ev) if e[2]]
-    if not hit:
+    k = (case.get("fault") or {}).get("k")
+    if k is None or k >= len(ev):
         return True
-    i = hit[-1]
-    restoring = [j for j, e in enumerate(ev) if e[0] == 1 and e[1] == 1]
-    later_stream_only = all(e[0] in (1, 8, 9, 13) for e in ev[i:])
-    return not (restoring and i >= restoring[-1]) and not (ev[i][0] in (8, 9) and later_stream_only and ev[i][2] in (1, 2, 3, 4)
-                                                          and not any(e[0] in (10, 11) for e in ev[i:]))
+    e = ev[k]
+    return not (e[0] == 1 and e[1] == 1 and e[2] in (1, 2))
+
+
+def attr_vec(a):
+    return list(a[:6]) + list(a[6]) if a else []
+
+
+def acase_term(r):
+    return "mkacase " + " ".join(core.coq_list(attr_vec(r[k]), core.z) for k in ("before", "held", "after"))
+
+
+# scenarios whose signal points are ALL enumerated in the quick tier (the others: a spread)
+ASYNC_FULL_QUICK = {("draw", "still"), ("read_tty", "t>0/more-stops"), ("query_terminal", "reply"), ("read_tty", "t>0/min2")}
+ASYNC_STRIDE_QUICK = 7
 
 
 def run(ctx):
+    import time as _t, os as _os
+    _t0 = _t.time(); _c0 = _os.times()
+    def _tick(tag):
+        if _os.environ.get('C13_TIMING'):
+            c = _os.times(); print(f'[c13 timing] {tag}: wall {_t.time()-_t0:.1f}s childcpu {c.children_user+c.children_system-_c0.children_user-_c0.children_system:.1f}s', file=sys.stderr)
     quick = ctx.quick
-    hist = {"fn": {}, "fault_kind": {}, "outcome": {}, "judgement": {}, "calls_per_run": {}, "attrs": {}}
+    hist = {"fn": {}, "fault_kind": {}, "outcome": {}, "judgement": {}, "calls_per_run": {}, "attrs": {},
+            "signal_points_per_scenario": {}, "async_fault_in": {}}
     errors, mismatches, failures = [], [], []
 
     if ctx.replay:
@@ -141,6 +179,7 @@ def run(ctx):
         for (an, a), (fn, mn, mode, obs) in itertools.product(attrs, MODES):
             base.append({"fn": fn, "attrs": a, "attrs_name": an, "mode": mode, "mode_name": mn, "obs": obs, "fault": None})
         base_res = core.run_impl_parallel("impl_c13.py", base)
+        _tick('base')
         cases = []
         for bi, (c, r) in enumerate(zip(base, base_res)):
             if r.get("abort"):
@@ -153,13 +192,44 @@ def run(ctx):
             for k in range(r["ncalls"]):
                 for kind, after in kinds:
                     cases.append(dict(c, fault={"k": k, "kind": kind, "after": after}))
-    results = core.run_impl_parallel("impl_c13.py", cases)
+        # ---- asynchronous faults at the signal points of the package code (clean-up included)
+        a_attrs = attrs[:1] if quick else attrs[:2]
+        a_base = [dict(c, **{"async": {"k": None}}) for c in base if c["attrs_name"] in {n for n, _ in a_attrs}]
+        a_res = core.run_impl_parallel("impl_c13.py", a_base)
+        _tick('async count')
+        for c, r in zip(a_base, a_res):
+            if r.get("abort") or r.get("npoints") is None:
+                errors.append(f"counting run aborted: {describe(c)}: {r.get('abort')}")
+                continue
+            n = r["npoints"]
+            hist["signal_points_per_scenario"][min(n // 50 * 50, 500)] = \
+                hist["signal_points_per_scenario"].get(min(n // 50 * 50, 500), 0) + 1
+            if not quick or (c["fn"], c["mode_name"]) in ASYNC_FULL_QUICK:
+                ks = range(1, n + 1)
+            else:
+                ks = range(1 + ctx.rng.randrange(ASYNC_STRIDE_QUICK), n + 1, ASYNC_STRIDE_QUICK)
+            for k in ks:
+                for kind in (("KI",) if quick else ("KI", "Exc")):
+                    cases.append(dict(c, **{"async": {"k": k, "kind": kind}}))
+    # round-robin over the worker processes (the asynchronous cases, slower, are at the end of the list)
+    order = [i for r in range(core.NCPU) for i in range(r, len(cases), core.NCPU)]
+    shuffled = core.run_impl_parallel("impl_c13.py", [cases[i] for i in order])
+    results = [None] * len(cases)
+    for i, r in zip(order, shuffled):
+        results[i] = r
+    _tick(f'all {len(cases)} cases')
 
     # ---- judge inside Coq (distinct observations only)
     keys, key_idx, owner = [], {}, []
-    for c, r in zip(cases, results):
+    a_terms, a_owner = [], {}
+    for ci, (c, r) in enumerate(zip(cases, results)):
         if r.get("abort"):
             errors.append(f"run aborted: {describe(c)}: {r['abort']}")
+            owner.append(None)
+            continue
+        if c.get("async"):
+            a_owner[ci] = len(a_terms)
+            a_terms.append(acase_term(r))
             owner.append(None)
             continue
         k = run_key(c, r)
@@ -179,10 +249,47 @@ def run(ctx):
             coq_ok = False
             errors += [e[-700:] for e in errs[:3]]
         codes = {i: code for i, code in bad}
+    _tick(f'coq judge {len(keys)} keys')
+    a_codes, a_coq_ok = {}, (core.COQ / "model" / "C13AsyncTie.vo").exists()
+    if a_terms and a_coq_ok:
+        a_header = ("From Coq Require Import List Bool Arith ZArith.\nImport ListNotations.\n"
+                    "From TI Require Import model.C13AsyncTie.\nOpen Scope nat_scope.\n")
+        bad, errs = core.coq_shards("c13a", a_header, a_terms, "acase", "abad cases", shard=200)
+        if errs:
+            a_coq_ok = False
+            errors += [e[-700:] for e in errs[:3]]
+        a_codes = {i: code for i, code in bad}
+    _tick(f'coq async {len(a_terms)}')
 
     distinct = set()
     in_scope_fault_runs = 0
+    async_runs = async_fired = 0
     for ci, (c, r) in enumerate(zip(cases, results)):
+        if ci in a_owner:
+            a = c["async"]
+            async_runs += 1
+            hist["fn"][c["fn"] + " (async)"] = hist["fn"].get(c["fn"] + " (async)", 0) + 1
+            if not r.get("fired"):
+                hist["async_fault_in"]["(not reached)"] = hist["async_fault_in"].get("(not reached)", 0) + 1
+            else:
+                async_fired += 1
+                w = r["where"]
+                hist["async_fault_in"][w[2]] = hist["async_fault_in"].get(w[2], 0) + 1
+            hist["outcome"][str(r["out"])] = hist["outcome"].get(str(r["out"]), 0) + 1
+            code = a_codes.get(a_owner[ci], 0) if a_coq_ok else (0 if r["restored"] else 2)
+            hist["judgement"]["async:" + str(code)] = hist["judgement"].get("async:" + str(code), 0) + 1
+            if (code == 0) != bool(r["restored"]):
+                errors.append(f"the Coq comparison of the attribute vectors disagrees with the driver's: {describe(c, r)}")
+            if code == 0 and r.get("fired"):
+                distinct.add(("async", c["fn"], c["mode_name"], tuple(r["where"]), a.get("kind")))
+            if code >= 2:
+                failures.append({
+                    "signature": core.sig({"fn": c["fn"], "mode": c["mode_name"], "async": a, "attrs": c["attrs_name"]}),
+                    "what": "terminal attributes not restored: " + describe(c, r),
+                    "replay": {"case": c, "observed": {k: r.get(k) for k in ("events", "out", "exc", "before", "held", "after",
+                                                                              "restored", "where", "npoints")}, "code": code},
+                })
+            continue
         if owner[ci] is None:
             continue
         f = c.get("fault")
@@ -193,7 +300,7 @@ def run(ctx):
         hist["attrs"][c["attrs_name"]] = hist["attrs"].get(c["attrs_name"], 0) + 1
         b = min(r["ncalls"] // 10 * 10, 60)
         hist["calls_per_run"][b] = hist["calls_per_run"].get(b, 0) + 1
-        code = codes.get(owner[ci], 0) if coq_ok else (0 if (r["restored"] or not heuristic_in_scope(r)) else 2)
+        code = codes.get(owner[ci], 0) if coq_ok else (0 if (r["restored"] or not heuristic_in_scope(c, r)) else 2)
         hist["judgement"][str(code)] = hist["judgement"].get(str(code), 0) + 1
         if f and code == 0:
             in_scope_fault_runs += 1
@@ -203,17 +310,21 @@ def run(ctx):
                 "signature": core.sig({"fn": c["fn"], "mode": c["mode_name"], "fault": f, "attrs": c["attrs_name"]}),
                 "what": "terminal attributes not restored: " + describe(c, r)
                         + ("" if coq_ok else " [scope judged heuristically: the translated skeleton is unavailable]"),
-                "replay": {"case": c, "observed": {k: r[k] for k in ("events", "out", "exc", "before", "after", "restored")},
-                           "code": code},
+                "replay": {"case": c, "observed": {k: r.get(k) for k in ("events", "out", "exc", "before", "held", "after",
+                                                                          "restored")}, "code": code},
             })
         elif code == 1:
             mismatches.append({"case": describe(c, r), "why": "the observed sequence of tracked calls is not a run of the translated skeleton"})
     # smallest failing input first (no fault < small k); one per function and mode
-    failures.sort(key=lambda f: (f["replay"]["case"]["fault"] is not None, (f["replay"]["case"].get("fault") or {}).get("k", 0)))
+    def fkey(f):
+        c = f["replay"]["case"]
+        flt = c.get("fault") or c.get("async")
+        return (flt is not None, c.get("async") is not None, (flt or {}).get("k", 0))
+    failures.sort(key=fkey)
     total_failing = len(failures)
     seen, kept = set(), []
     for f in failures:
-        key = (f["replay"]["case"]["fn"], f["replay"]["case"]["mode_name"])
+        key = (f["replay"]["case"]["fn"], f["replay"]["case"]["mode_name"], f["replay"]["case"].get("async") is not None)
         if key not in seen:
             seen.add(key)
             kept.append(f)
@@ -242,8 +353,15 @@ def run(ctx):
                 "each, the fault-free run and then, FOR ALL k, the k-th tracked call raising KeyboardInterrupt or an Exception "
                 "(termios.error / OSError / RuntimeError) before or after the real call, and a real SIGINT "
                 "(signal.raise_signal) after it (quick: all five kinds on the first attribute set, KeyboardInterrupt-after on "
-                "the others).  Non-trivial: distinct observed traces with a fault that the model places outside the "
-                "function's own clean-up and that were judged (in Coq) to be runs of the skeleton.",
+                "the others) WHEREVER the call stands, the function's own finally / except blocks included (only the "
+                "restoring tcsetattr of a clean-up block itself failing is outside the property).  Plus asynchronous faults: "
+                "KeyboardInterrupt (thorough: also an Exception) at the k-th signal point of the package code (bytecode "
+                "positions where CPython runs signal handlers), ALL k for "
+                + ("four scenarios and every " + str(ASYNC_STRIDE_QUICK) + "th (random phase) for the others, first attribute set"
+                   if quick else "every scenario, first two attribute sets")
+                + ".  Attributes read before the call, when it exits (exception still referenced) and after release + "
+                "gc.collect().  Non-trivial: distinct observed traces with an in-scope fault that were judged (in Coq) to be "
+                "runs of `anyfault skeleton`, plus distinct (scenario, position) pairs of fired asynchronous faults.",
         "samples": samples,
         "histogram": hist,
         "mismatches": mismatches,
@@ -256,12 +374,15 @@ def run(ctx):
             "calls outside the call table of harness/tx/tx_skel.py do not change terminal attributes (validated by the "
             "byte-for-byte comparison on every enumerated run)",
             "decorators unix_tty_only / lock_tty are transparent for terminal attributes",
-            "asynchronous delivery between two bytecodes is represented as the previous tracked call raising after its "
-            "effect / the next one raising before it; signals landing inside the function's own finally block are outside "
-            "the property (DESIGN 4/C07)",
+            "a signal handler's exception is raised by CPython only where the evaluation loop polls for pending signals "
+            "(after a call returns, at function / generator entry, on a backward jump): the asynchronous family enumerates "
+            "exactly those positions inside package code (clean-up blocks included); a 'line' position between the return "
+            "of the previous call and the restoring tcsetattr of a finally block is not one",
+            "the restoring tcsetattr of a clean-up block failing before it takes effect (the OS refuses the restore) is "
+            "outside the property: no code can put the attributes back then",
         ] + [f"`{s}` keeps one truth value during a call" for s in assumed],
         "trusted": ["harness/tx/tx_skel.py (Python ast -> prog, fail-closed)", "the pty driver harness/impl/impl_c13.py "
                     "(patches termios.*, utils.os/select/monotonic, sys.stdout, RenderIterator.__next__, sleep)"],
         "extra": {"in_scope_fault_runs": in_scope_fault_runs, "distinct_traces_judged": len(keys),
-                  "failing_runs_total": total_failing},
+                  "async_runs": async_runs, "async_fired": async_fired, "failing_runs_total": total_failing},
     }
